@@ -43,6 +43,12 @@ HOSTILE = [
     ('unicode', 'مرحبا ‮́ 𝔘𝔫𝔦 \U0001F600 é中'),
     ('long', ('x&<y>"' * 1500)),
     ('percent', '%26 %3C %7f %% %s {0} {cfgs} {kids}'),
+    # one metacharacter at a time: an escaping shortcut that tests for "any of the others" misses these
+    ('gt-only', 'section [[1]]> part 2 > end'),
+    ('lt-only', 'a < b'),
+    ('amp-only', 'R&D'),
+    ('dq-only', 'a "quoted" word'),
+    ('sq-only', "it's"),
 ]
 
 ALL_TEMPLATES = [('hand_made.mpd', ['live', 'vod', 'odvod']), ('manifest_a.mpd', ['live', 'vod']),
@@ -90,6 +96,14 @@ def gen_cases(ctx: ShardCtx, n: int) -> list[dict]:
             for k, vals in (('abr', ['0', '1']), ('acodec', ['mp4a', 'ec-3', 'any']), ('base', ['0', '1'])):
                 if rng.random() < 0.3:
                     params[k] = rng.choice(vals)
+        if rng.random() < 0.25 and manifest in ('hand_made.mpd', 'manifest_n.mpd'):
+            # event streams described in the manifest (inband=0) with boundary values of every numeric sub-option
+            ev = rng.choice(['ping', 'scte35'])
+            params['events'] = ev
+            params[f'{ev}__inband'] = rng.choice(['0', '0', '1'])
+            names = ['count', 'duration', 'interval', 'start', 'timescale'] + (['version'] if ev == 'ping' else ['program_id'])
+            for name in rng.sample(names, rng.randrange(0, 4)):
+                params[f'{ev}__{name}'] = str(rng.choice([-5, -1, 0, 1, 2, 7, 1000, 90000, 2**31, 2**32, 2**33 + 1]))
         if route == 'patch':
             params['patch'] = '1'
             params['timeline'] = '1'
